@@ -90,10 +90,14 @@ M("c16-lazy-index-zero", ["C16", "C13"], [(MDEP, '''        self.__result_except
         self.__lazy_result_callback = partial(self._callbacks.insert, position, _inner)
 
     def set_exception''')], "R-C16-CALLBACKS")
-M("c16-callbacks-reversed", "C16", [(MDEP, "[await c() for c in self._callbacks]", "[await c() for c in reversed(self._callbacks)]")], "R-C16-CALLBACKS")
+M("c16-callbacks-reversed", "C16", [(MDEP, "for callback in self._callbacks:  # execute in order", "for callback in reversed(self._callbacks):  # execute in order")], "R-C16-CALLBACKS")
 M("c16-slot-fired-last", "C16", [(MDEP, '''        self.__lazy_result_callback()
-        [await c() for c in self._callbacks]  # execute in order
-''', '''        [await c() for c in self._callbacks]  # execute in order
+        for callback in self._callbacks:  # execute in order
+''', '''        for callback in self._callbacks:  # execute in order
+'''), (MDEP, '''                    extra={"message_id": self._key.id_},
+                )
+''', '''                    extra={"message_id": self._key.id_},
+                )
         self.__lazy_result_callback()
 ''')], "R-C16-CALLBACKS")
 R("c16-r-guard-via-property", "C16", [(MSG, '''    async def ack(self) -> None:
@@ -123,8 +127,8 @@ R("c16-r-flag-guard-first", "C16", [(MSG, '''        if self._category != Messag
         if self._category != MessageCategory.NORMAL:
             raise ValueError(f"Can not nack message with category {self._category}.")
 ''')])
-R("c16-r-callbacks-for-loop", "C16", [(MDEP, "        [await c() for c in self._callbacks]  # execute in order\n",
-                                       "        for c in self._callbacks:\n            await c()\n")])
+R("c16-r-callbacks-snapshot", ["C16", "C13"], [(MDEP, "for callback in self._callbacks:  # execute in order", "for callback in list(self._callbacks):  # execute in order")])
+M("c13-callback-failure-escapes", ["C13"], [(MDEP, "            except Exception:\n                # the message has been already", "            except ValueError:\n                # the message has been already")], "R-C13-EAGER-SAFE")
 
 # ----------------------------------------------------------------------------------------------- C02 / C04 / C06 (processor ladder)
 PROC = "repid/_processor.py"
